@@ -222,7 +222,7 @@ def run(ctx):
     # ---- sessions in separate interpreter processes (different hash seeds), evaluator with four class groups, kill + restart
     n_rs = ctx.scale(2, 8)
     for i in range(n_rs):
-        lines, sq, rep = A.restart_smoke(rng, default_metrics=(i % 2 == 0))
+        lines, sq, rep = A.restart_smoke(rng, default_metrics=(i % 2 == 0), c_locale=(i % 2 == 1))
         ctx.count({"restart_smoke": rep.get("killed_after"), "seeds": rep.get("hash_seeds")}, True)
         ctx.bump("restart in a fresh interpreter process (final file only)")
         probs = A.restart_smoke_problems(lines, sq, rep)
